@@ -495,9 +495,14 @@ def ref_program_traces(routines, labels, L, cap=300000):
 
 
 def flat_program_traces(code, L, cap=300000):
-    def label_text(c):
-        ref = c.attrs.get("label")
+    def ref_text(ref):
+        # the spelling the assembler sees: LabelReference.getLabel() (interpreted), a plain string for callsub targets
+        if isinstance(ref, Sym) and "getLabel" in ref.methods:
+            return ref.methods["getLabel"]()
         return ref.attrs.get("label") if isinstance(ref, Sym) else ref
+
+    def label_text(c):
+        return ref_text(c.attrs.get("label"))
 
     labels = {}
     for i, c in enumerate(code):
@@ -531,7 +536,7 @@ def flat_program_traces(code, L, cap=300000):
                 raise AnalysisError(f"unexpected component {c!r}")
             if c.op in ("b", "bz", "bnz", "callsub"):
                 a = c.args[0] if c.args else None
-                text = a.attrs.get("label") if isinstance(a, Sym) and "label" in a.attrs else a
+                text = ref_text(a)
                 tgt = labels.get(text) if isinstance(text, str) else None
                 if tgt is None:
                     out.add(seq + (f"<{c.op} to an undefined label {text!r}>",))
@@ -576,6 +581,7 @@ def multi_programs():
         "early return inside a loop": ({None: ("seq", [C("s1"), E(9), fin]), "s1": ("seq", [("while", V(1), ("seq", [E(1), ("if", V(2), RS, None)])), E(2)])}, {"s1": 1}),
         "names that sanitise to the same text": ({None: ("seq", [C("my sub!"), C("mysub"), fin]), "my sub!": E(1), "mysub": ("seq", [E(2), C("my sub!")])}, {"my sub!": 1, "mysub": 2}),
         "main branches around a call": ({None: ("seq", [("if", V(1), C("s1"), E(5)), ("while", V(2), C("s2")), fin]), "s1": ("if", V(3), E(1), E(2)), "s2": ("seq", [E(3), ("if", V(4), RS, None), E(4)])}, {"s1": 4, "s2": 5}),
+        "names starting with a digit, holding braces, per cent signs and non-ASCII letters": ({None: ("seq", [C("2nd_pass"), C("swap{a,b}"), C("100%d"), C("überweisung"), fin]), "2nd_pass": E(1), "swap{a,b}": ("seq", [E(2), C("2nd_pass")]), "100%d": E(3), "überweisung": E(4)}, {"2nd_pass": 1, "swap{a,b}": 2, "100%d": 3, "überweisung": 4}),
         "subroutine only reachable through another": ({None: ("seq", [C("s1"), fin]), "s1": ("seq", [C("s2"), C("s2")]), "s2": ("seq", [C("s3")]), "s3": E(1)}, {"s1": 3, "s2": 2, "s3": 1}),
     }
 
